@@ -265,6 +265,11 @@ def one_case(ctx, plan, mode, first, case_extra=None):
                 bad('retry-returns-a-value', f'retry evaluate({target!r}) = {r[1]!r} although it must fail again')
                 return
             want = call(fresh_ok.evaluate, target)
+            if want[0] != 'v':
+                # building the graph evaluates declared ranges eagerly, so the first attempt can fail on the
+                # *other* failing cell although the value does not depend on it (e.g. an intersection
+                # operand): the reference gets the same second chance as the model under test
+                want = call(fresh_ok.evaluate, target)
             if want[0] != 'v' or not wb.same(r[1], want[1], rel=1e-6):
                 bad('value-after-transient-failure-differs',
                     f'after the one-shot fault evaluate({target!r}) = {r[1]!r}, a model in which the plugin '
